@@ -134,7 +134,9 @@ claim('C03',
       'FLOOR(|C(T)|/2^31) with the accumulator polynomial of D3; D12 a computing path that hands '
       'back a constant (fallback) duration is not taken by any move of a witness grid (path '
       'conditions evaluated with exact / 40-digit square roots); one family is a recorded known '
-      'finding (K1: accumulator exactly on a threshold at the reversal tick -> duration 0). NOT decided: minimality of the '
+      'finding (K1: accumulator exactly on a threshold at the reversal tick -> duration 0); D13 on a '
+      'grid of reversing moves (explicit start accumulators included) the reported position follows '
+      'from the steps made before the reversal. NOT decided: minimality of the '
       'chosen root and the accumulator range when the accumulator lands exactly on a step '
       'boundary (measure-zero coincidences; DESIGN.md 4.3).',
       'Trusted: as C01. The claim is deliberately limited; see DESIGN.md 3/C03 and 5.',
